@@ -141,6 +141,11 @@ namespace sim
                break;
             case OP_IF_MUST:
                return seq_sem( an, { a, b } );
+            case OP_T_SOR_BT:
+            case OP_T_SOR_TC:
+               s = seq_sem( an, { a, b } );
+               s.null = true;
+               break;
             case OP_OPT_MUST:
             case OP_STAR_MUST:
             case OP_STRICT:
@@ -217,6 +222,8 @@ namespace sim
             case OP_STAR_MUST:
             case OP_STAR_STRICT:
             case OP_STAR_PARTIAL:
+            case OP_T_SOR_BT:
+            case OP_T_SOR_TC:
                ok = !( na && nb );
                break;
             case OP_LIST_PAD:
@@ -361,7 +368,7 @@ namespace sim
       const std::uint8_t grp_state[] = { OP_STATE, OP_W_CS, OP_W_CSS, OP_W_EA, OP_W_DA, OP_ENABLE, OP_DISABLE, OP_AT, OP_NOT_AT, OP_MINI, OP_SEQ2, OP_SOR2, OP_STAR, OP_OPT, OP_TC_ANY_RF, OP_MUST };
       const std::uint8_t grp_limits[] = { OP_W_LB1, OP_W_LB3, OP_W_LD1, OP_W_LD2, OP_W_CB2, OP_SEQ2, OP_SEQ3, OP_SOR2, OP_STAR, OP_OPT, OP_AT, OP_NOT_AT, OP_TC_RF, OP_TC_ANY_RF, OP_PLUS, OP_UNTIL1 };
       const std::uint8_t grp_stream[] = { OP_SEQ2, OP_SEQ3, OP_SOR2, OP_STAR, OP_PLUS, OP_UNTIL1, OP_UNTIL2, OP_LIST, OP_PAD, OP_RAW, OP_REMATCH, OP_MINUS, OP_AT, OP_NOT_AT, OP_REP_MIN_MAX, OP_IF_THEN_ELSE };
-      const std::uint8_t grp_tree[] = { OP_SEQ2, OP_SOR2, OP_STAR, OP_OPT, OP_PLUS, OP_AT, OP_NOT_AT, OP_TC_ANY_RF, OP_TC_RF, OP_MUST, OP_LIST, OP_MINI, OP_IF_THEN_ELSE, OP_UNTIL2 };
+      const std::uint8_t grp_tree[] = { OP_T_SOR_BT, OP_T_SOR_TC, OP_SEQ2, OP_SOR2, OP_STAR, OP_OPT, OP_PLUS, OP_AT, OP_NOT_AT, OP_TC_ANY_RF, OP_TC_RF, OP_MUST, OP_LIST, OP_MINI, OP_IF_THEN_ELSE, OP_UNTIL2 };
 
       const std::uint8_t atoms_consume[] = { ATOM_UNSIGNED, ATOM_SIGNED, ATOM_MAXIMUM, ATOM_RAW0, ATOM_STR_ABC, ATOM_KEYWORD_AB, ATOM_REP_ONE, ATOM_UTF8_ANY, ATOM_UINT16_ANY, ATOM_UINT32_ONE, ATOM_BYTES3, ATOM_LIST_DIGITS, ATOM_NAMED_DIGITS, ATOM_THREE_A, ATOM_IDENTIFIER, ATOM_EOL, ATOM_STR_CRLF, ATOM_DEEP9 };
       const std::uint8_t atoms_exc[] = { ATOM_RAISE, ATOM_RAISE_MSG, ATOM_NAMED_AB, ATOM_NAMED_C, ATOM_NAMED_DIGITS, ATOM_APPLY, ATOM_ONE_A, ATOM_ANY, ATOM_STR_AB, ATOM_DEEP7 };
@@ -724,6 +731,16 @@ namespace sim
                   node( a, d );
                   if( r.chance( 1, 2 ) ) {
                      node( b, d );
+                  }
+                  break;
+               case OP_T_SOR_BT:
+               case OP_T_SOR_TC:
+                  for( unsigned i = reps( 0, 2 ); i > 0; --i ) {
+                     node( a, d );
+                     node( b, d );
+                  }
+                  if( r.chance( 2, 3 ) ) {
+                     out += r.chance( 1, 2 ) ? "x" : ( r.chance( 1, 2 ) ? "y" : "z" );
                   }
                   break;
                case OP_RAW: {
